@@ -528,6 +528,28 @@ theorem C14_failure_all_partial (F : File) (cfg : Cfg) (st : Stores) (e : Err) (
     rw [this]; simp
   simp only [failureOk, hfc, hchain, hlv, Bool.and_self]
 
+/-- `NewHeadersImport`: a `WriteBatchSizePerRegion` left unset (zero or negative)
+becomes the default, in the options value `Import` reads
+(`Gen.Import.defaultBatchAppliedToKeptOptions`).  The batch size of the model
+(`Cfg.bs`) is this effective value. -/
+def effectiveBatch (requested : Int) : Nat :=
+  if requested ≤ 0 then Gen.Import.defaultWriteBatchSize else requested.toNat
+
+/-- the effective batch size is never 0: every theorem above (hypothesis
+`cfg.bs ≥ 1`) applies to an import whose batch size was left unset.  (With a
+batch size of 0 — what the importer would run with if the default did not reach
+it — `ReadBatch(start, end, 0)` is empty for every `start ≥ 1`, the write loop
+ends at once and the import reports success having written nothing.) -/
+theorem C14_default_batch (requested : Int) : effectiveBatch requested ≥ 1 := by
+  unfold effectiveBatch
+  split
+  · decide
+  · omega
+
+example : effectiveBatch 0 = 65536 ∧ effectiveBatch (-1) = 65536 ∧ effectiveBatch 7 = 7 := by decide
+-- the iterator with batch size 0 above index 0: end of data at once
+example : (match readBatch [1, 2, 3, 4] 1 3 0 with | .eof => true | _ => false) = true := by decide
+
 /-! ### Context cancellation
 
 `cfg.cancelAt = some c`: the import's context is cancelled, for good, from its
@@ -718,6 +740,7 @@ batch size, while the iterators were created over source INDICES; and
 the validators in `Import` run over file indices `0 .. headersCount-1` (the whole
 file); `writeHeadersToTargetStores` writes the block store first, then the filter store,
 and rolls the block store back by `len(blockHeaders)` in the filter-failure branch.
+the default batch size is 65536 and reaches the options the importer keeps;
 (A repair of F7 changes the first facts and forces `processBatch` in the model,
 and with it `C14_success_counterexample`, to be revisited.) -/
 theorem C14_source_facts :
@@ -728,6 +751,7 @@ theorem C14_source_facts :
     Gen.Import.writeOrder = ["block.WriteHeaders", "filter.WriteHeaders", "block.RollbackBlockHeaders"] ∧
     Gen.Import.validatedRanges = ["0,metadata.headersCount - 1", "0,metadata.headersCount - 1"] ∧
     Gen.Import.cancelCheckBeforeProcessBatch = true ∧ Gen.Import.validatorsReturnNilOnCancel = true ∧
+    Gen.Import.defaultWriteBatchSize = 65536 ∧ Gen.Import.defaultBatchAppliedToKeptOptions = true ∧
     Gen.Import.rollbackInFilterFailure = true ∧
     Gen.Import.rollbackCount = "uint32(len(blockHeaders))" := by decide
 
